@@ -64,7 +64,7 @@ func main() {
 		}
 		kcases = append(kcases, runPart(a, res, part)...)
 	}
-	res.WriteCases("From GL Require Import Conc.RefLoop Corr.C07Run.", "c07case", "mismatches", spread(kcases, 16), 16)
+	res.WriteCases("From GL Require Import Conc.RefLoop Conc.VersionLayer Corr.C07Run.", "c07case", "mismatches", spread(kcases, 16), 16)
 }
 
 // spread reorders the cases so that the few very long ones land in different shards of WriteCases.
@@ -422,11 +422,13 @@ func shrinkLoop(c SeqCase) *SeqCase {
 
 // ---------------------------------------------------------------- version layer
 
-// vlPart drives the real version layer and checks that what it sends satisfies env_ok.
+// vlPart drives the real version layer and checks that what it sends satisfies env_ok and equals, event by
+// event, what the model of the version layer (Conc/VersionLayer.v; Go mirror vlmodel.go) sends for the same
+// operations. Every session becomes a KVL case, re-evaluated by the Coq model itself.
 func vlPart(a vlib.Args, res *vlib.Result) []string {
-	n, kcap := 400, 16
+	n, kcap, kbytes := 400, 4000, 3000000
 	if a.Thorough() {
-		n, kcap = 30000, 60
+		n, kcap, kbytes = 30000, 4000, 3400000
 	}
 	root := vlib.NewRNG(a.Seed ^ 0x7e1)
 	jobs := make(chan int)
@@ -438,6 +440,8 @@ func vlPart(a vlib.Args, res *vlib.Result) []string {
 	}
 	var mu sync.Mutex
 	var out []string
+	outBytes := 0
+	texts := make([][]string, n)
 	var wg sync.WaitGroup
 	for w := 0; w < 16; w++ {
 		wg.Add(1)
@@ -447,22 +451,26 @@ func vlPart(a vlib.Args, res *vlib.Result) []string {
 			for i := range jobs {
 				c := cases[i]
 				setInflight(w, replayFile{VL: &c})
-				d, logs, stats := runVLCase(c)
+				d, sessions, stats := runVLCase(c)
 				res.Eval(fmt.Sprintf("vl%d", i), stats["commits"] > 0 && (stats["failed_commits"] > 0 || stats["sessions"] > 1))
 				res.Count("vl_cases", 1)
 				for k, v := range stats {
 					res.Count("vl_"+k, v)
 				}
-				for _, l := range logs {
-					res.Count("vl_events", len(l))
+				for _, s := range sessions {
+					res.Count("vl_events", len(s.Events))
+					res.Count("vl_model_ops", len(s.Ops))
+					if !s.Disc {
+						res.Count("vl_sessions_outside_discipline", 1)
+					}
 				}
 				if d != "" {
 					res.Violate("version layer: "+d, replayFile{VL: shrinkVL(c)})
 				}
 				mu.Lock()
-				for _, l := range logs {
-					if len(out) < kcap && len(l) > 4 && len(l) < 200 {
-						out = append(out, CoqProtoCase(l))
+				for _, s := range sessions {
+					if len(s.Events) > 4 {
+						texts[i] = append(texts[i], CoqVLCase(s))
 					}
 				}
 				mu.Unlock()
@@ -474,7 +482,35 @@ func vlPart(a vlib.Args, res *vlib.Result) []string {
 	}
 	close(jobs)
 	wg.Wait()
-	res.Count("k_protocol_sequences", len(out))
+	for _, ts := range texts { // in case order: the case files do not depend on the scheduling
+		for _, t := range ts {
+			if len(out) < kcap && outBytes+len(t) <= kbytes {
+				out = append(out, t)
+				outBytes += len(t)
+			}
+		}
+	}
+	// directed: a recovered session whose first commit fails AFTER newManifest has switched to the new manifest
+	// (removing the old manifest file fails), continued instead of closed. Outside the discipline (through the DB
+	// Open fails there); the model says the recovered tables are then never counted and the loop panics when one
+	// of them is deleted. The real layer must send exactly what the model sends, and the loop model must panic.
+	probe := VLCase{Seed: a.Seed, Probe: true, Ops: []VLOp{{Kind: "commit", Add: 2}, {Kind: "reopen"},
+		{Kind: "failsw", Add: 1}, {Kind: "commit", Add: 1}, {Kind: "commit", Del: 1}}}
+	if d, sessions, _ := runVLCase(probe); d != "" {
+		res.Violate("version layer (directed, failed-but-switched first commit): "+d, replayFile{VL: &probe})
+	} else if len(sessions) == 2 && !sessions[1].Disc {
+		m := NewModel(256)
+		for _, e := range sessions[1].Events {
+			if _, pk, _ := m.Step(e); pk == PanicNegative {
+				res.Count("vl_probe_failed_switched_loop_negative_ref", 1)
+				break
+			}
+		}
+		out = append(out, CoqVLCase(sessions[1]))
+		res.Count("vl_probe_failed_switched_outside_discipline", 1)
+	}
+	res.Count("k_version_layer_sessions", len(out))
+	res.Count("k_version_layer_bytes", outBytes)
 	return out
 }
 
